@@ -19,7 +19,10 @@ import (
 
 var vT0 = time.Date(2021, 3, 4, 5, 6, 7, 500000000, time.UTC)
 
-const vF0 = FrameIndex(1000)
+// frame number of the first sample the scripted source delivers (hardware sources start at a large counter,
+// simulated ones at 0; the trigger scenarios set it per execution)
+var vF0 = FrameIndex(1000)
+
 const vPeriod = time.Millisecond
 
 func TestMain(m *testing.M) {
